@@ -31,6 +31,8 @@ void module_constructor(const char *name)
         for (tok = strtok_r(buf, ",", &save); tok; tok = strtok_r(NULL, ",", &save))
             module_antidepends(strdup(tok), NULL);
     }
+    if (getenv("STUBBACKEND_" STUBNAME))       /* a back end of the core: unloaded after every ordinary module */
+        module_is_backend();
     logev("CE");
 }
 
